@@ -32,7 +32,7 @@ func init() {
 			"every truncation and single-byte extension of honest encodings, every length/count field set to {0,1,actual-1,actual+1,2^k-1,2^k}, varints re-encoded in 1/2/4/8 bytes up to 2^62-1, every type tag, splices, seeded bit flips and random strings behind valid headers. " +
 			"Oracle per call: it returns (no panic, no process death, no CPU-time stall) and allocates at most C + S*len(input) bytes (runtime/metrics /gc/heap/allocs:bytes; C and S calibrated at start-up as 8x the largest honest allocation and 8x the largest honest bytes-per-input-byte ratio). Each call is journalled before it is made; workers run under RLIMIT_AS. " +
 			"A second, coverage-guided stage runs Go's native fuzzer (FuzzC03 in props/fuzz_test.go: mutated (target, input) pairs seeded with the honest and the well-framed hostile encodings, same oracle) for 40 000 / 4 000 000 executions. distinct_nontrivial = distinct (target, outcome, mutation family) triples",
-		Floors:            []string{"calls_returned", "outcome_accept", "outcome_reject", "family_truncate", "family_lenfield", "family_varint", "family_tag", "family_random", "family_extend", "family_rebuild"},
+		Floors:            []string{"calls_returned", "outcome_accept", "outcome_reject", "family_truncate", "family_lenfield", "family_varint", "family_tag", "family_random", "family_extend", "family_rebuild", "type3_sealed_response_selfcheck_ok"},
 		Assumptions:       []string{"amd64", "ed25519.Verify is only ever given a 32-byte public key (a different key length is a documented caller-side precondition, not peer data)"},
 		HostileBytes:      true,
 		StallIsViolation:  true,
@@ -567,6 +567,37 @@ func (w *c03World) build() {
 		call: func(b []byte) bool { _, _, err := iss3.Evaluate(b); return err == nil }})
 	w.add(&c03Target{name: "type3.FinalizeToken", seeds: [][]byte{resp3},
 		call: func(b []byte) bool { _, err := st3.FinalizeToken(b); return err == nil }})
+	// the same step fed with PROPERLY ENCRYPTED hostile payloads: an issuer built over a known name-key seed (hook), so the
+	// monitor can derive the response key the way a malicious issuer holding that key would
+	{
+		seed := r.Bytes(32)
+		issK, kerr := type3.VerifNewRateLimitedIssuerWithNameKey(type3.NewRateLimitedIssuer(rk[1]), seed)
+		must(kerr)
+		issK.AddOrigin("origin.example")
+		stK, err := cl3.CreateTokenRequest(r.Bytes(20), r.Bytes(32), blind, issK.TokenKeyID(), issK.TokenKey(), "origin.example", issK.NameKey())
+		must(err)
+		reqK := clone(stK.Request().Marshal())
+		respK, _, err := issK.Evaluate(reqK)
+		must(err)
+		sealer, serr := newT3ResponseSealer(seed, reqK)
+		if serr != nil {
+			c.Info("type3_response_sealer_error", serr.Error())
+		} else {
+			// self-check of the sealer: a well-formed payload it seals must finalize
+			if good, gerr := sealer.open(respK); gerr == nil {
+				if _, ferr := stK.FinalizeToken(sealer.seal(r.Bytes(16), good)); ferr == nil {
+					c.Class("type3_sealed_response_selfcheck_ok")
+				} else {
+					c.Info("type3_response_sealer_selfcheck", ferr.Error())
+				}
+				w.add(&c03Target{name: "type3.FinalizeToken(sealed-payload)", seeds: [][]byte{respK},
+					rebuild: func(r *core.Rand) [][]byte { return rebuildT3Response(r, sealer, good, rk[1].N.Bytes()) },
+					call:    func(b []byte) bool { _, err := stK.FinalizeToken(b); return err == nil }})
+			} else {
+				c.Info("type3_response_sealer_open_error", gerr.Error())
+			}
+		}
+	}
 	attCache := newMemCache()
 	att := type3.NewRateLimitedAttester(attCache)
 	w.add(&c03Target{name: "type3.TokenRequest.Unmarshal+Attester.VerifyRequest", seeds: [][]byte{req3}, tagged: true, fields: u16At(83), rebuild: rb3,
